@@ -7,16 +7,16 @@ def logu(rnd, a, b):
 
 
 def random_mssm(rnd, lo=300, hi=2000, tb_lo=3, tb_hi=50):
-    """a valid point: the left-right mixing entries m_f (A_f - mu tan(beta)) (resp. cot(beta)) stay below half of
+    """a valid point: the left-right mixing entries m_f (A_f - mu tan(beta)) (resp. cot(beta)) stay below a fifth of
     m_L m_R in every sfermion sector, so that no tachyon arises from the random choice itself"""
     while True:
         p = _random_mssm(rnd, lo, hi, tb_lo, tb_hi)
         tb, mu = p["TB"], p["Mu"]
         ok = True
         for i, (ml_, mdn, mup) in enumerate(((0.000511, 0.0047, 0.0022), (p["Mm"], 0.096, 1.28), (p["Mtau"], p["Mb"], p["Mt"]))):
-            ok &= ml_ * abs(p["Ae"][i] - mu * tb) < 0.5 * p["ml"][i] * p["me"][i]
-            ok &= mdn * abs(p["Ad"][i] - mu * tb) < 0.5 * p["mq"][i] * p["md"][i]
-            ok &= mup * abs(p["Au"][i] - mu / tb) < 0.5 * p["mq"][i] * p["mu"][i]
+            ok &= ml_ * abs(p["Ae"][i] - mu * tb) < 0.2 * p["ml"][i] * p["me"][i]
+            ok &= mdn * abs(p["Ad"][i] - mu * tb) < 0.2 * p["mq"][i] * p["md"][i]
+            ok &= mup * abs(p["Au"][i] - mu / tb) < 0.2 * p["mq"][i] * p["mu"][i]
         if ok:
             return p
 
